@@ -200,7 +200,7 @@ def gen_specs(rep, tier):
                  [['from_delayed', [0, m // 2, m]], ['pack_to_parquet', nparts]], keys)
     # B3. bounds= that really drops partitions, two geometry columns, non-active column used,
     #     written back and re-read
-    for kind in (['point', 'line', 'polygon'] if quick else G.KINDS):
+    for kind in (['point', 'line'] if quick else G.KINDS):
         els = template(kind, 0)
         k2, els2 = second_column(kind)
         singles = ['from_delayed', [0, 1, 2, 3, 4, 5, 6]]
@@ -216,7 +216,7 @@ def gen_specs(rep, tier):
     OFF = 5000000
     far_keys = [tuple(OFF + v for v in k) for k in
                 ((2, 6, 2, 6), (1.5, 4.5, 0.5, 3.5), (3, 4, 3, 4), (6, 9, 6, 9))]
-    for kind in (['point', 'line', 'multipolygon'] if quick else G.KINDS):
+    for kind in (['point', 'multipolygon'] if quick else G.KINDS):
         els = template(kind, 0)
         k2, els2 = second_column(kind)
         base = ['from_delayed', rng.choice([[0, 2, 4, 6], [0, 3, 6], [0, 1, 2, 3, 4, 5, 6]])]
@@ -564,11 +564,11 @@ def check_frame(ctx, X, spec, expect, ordered, index_kept):
         ctx.metas.append(spec)
 
     # ---- every geometry column, not only the active one (column selection ddf[c])
-    if last in ('parquet', 'pack_to_parquet') or rep.evaluations % 4 == 0:
+    if last in ('parquet', 'pack_to_parquet') or rep.evaluations % (7 if quick_ops(rep) else 2) == 0:
         check_all_geometry_columns(ctx, X, ref, parts, spec, last)
 
     # ---- several lazy cx queries over the same partitions
-    if spec.get('lazy') or rep.evaluations % 6 == 0:
+    if spec.get('lazy') or rep.evaluations % (11 if quick_ops(rep) else 3) == 0:
         check_lazy_queries(ctx, X, ref, spec, last, used_keys)
 
     # ---- sjoin (the left geometry must be points: intersects() exists for PointArray only)
